@@ -110,11 +110,11 @@ func varList(gg *GenGrammar, vns []string, pretty map[string]string) (names, cto
 var optName = map[string]string{"d": "default", "i": "inline", "s": "switch", "is": "inline-switch", "n": "noast", "ni": "noast-inline", "ns": "noast-switch", "nis": "noast-inline-switch"}
 
 func init() {
-	checks["C01"] = func(c *Ctx) error {
+	gramSpecs["C01"] = func(c *Ctx) ([]*family.Grammar, *GramSpec) {
 		N := maxN(c)
 		stdBounds(c, N)
 		c.Bounds["entry_rules"] = "every rule of each grammar (first rule via Parse(), others via Parse(rule constant))"
-		return runGrammarProperty(c, parserFamily(c, ""), &GramSpec{
+		return parserFamily(c, ""), &GramSpec{
 			Variants: []string{"d"},
 			Entries: func(gg *GenGrammar) []EntrySpec {
 				return []EntrySpec{{Name: "C01", Params: "n, rule int", Body: "hl.C01(G, vd.New, n, rule, NSW)"}}
@@ -127,25 +127,25 @@ func init() {
 				return jobs
 			},
 			BrokenIsViolation: true, ValidateEveryGrammar: validateEvery(c), Cfg: parserCfg(c),
-		})
+		}
 	}
-	checks["C03"] = func(c *Ctx) error {
+	gramSpecs["C03"] = func(c *Ctx) ([]*family.Grammar, *GramSpec) {
 		N := maxN(c)
 		stdBounds(c, N)
-		return runGrammarProperty(c, parserFamily(c, ""), &GramSpec{
+		return parserFamily(c, ""), &GramSpec{
 			Variants: []string{"d"},
 			Entries: func(gg *GenGrammar) []EntrySpec {
 				return []EntrySpec{{Name: "C03", Params: "n, rule int", Body: "hl.C03(G, vd.New, n, rule, NSW)"}}
 			},
 			Jobs:              func(gg *GenGrammar) []*Job { return lenJobs("C03", N, 0) },
 			BrokenIsViolation: true, ValidateEveryGrammar: validateEvery(c), Cfg: parserCfg(c),
-		})
+		}
 	}
-	checks["C02"] = func(c *Ctx) error {
+	gramSpecs["C02"] = func(c *Ctx) ([]*family.Grammar, *GramSpec) {
 		N := maxN(c)
 		stdBounds(c, N)
 		c.Bounds["option_sets"] = "-inline, -switch, -inline -switch, each against the default parser on the same symbolic input"
-		return runGrammarProperty(c, parserFamily(c, ""), &GramSpec{
+		return parserFamily(c, ""), &GramSpec{
 			Variants: []string{"d", "i", "s", "is"},
 			Entries: func(gg *GenGrammar) []EntrySpec {
 				if !gg.OK("d") {
@@ -159,50 +159,50 @@ func init() {
 			},
 			Jobs:              func(gg *GenGrammar) []*Job { return lenJobs("C02", N) },
 			BrokenIsViolation: true, ValidateEveryGrammar: validateEvery(c), Cfg: parserCfg(c),
-		})
+		}
 	}
-	checks["C04"] = func(c *Ctx) error {
+	gramSpecs["C04"] = func(c *Ctx) ([]*family.Grammar, *GramSpec) {
 		N := maxN(c)
 		stdBounds(c, N)
-		return runGrammarProperty(c, parserFamily(c, "actions"), &GramSpec{
+		return parserFamily(c, "actions"), &GramSpec{
 			Variants: []string{"d"},
 			Entries: func(gg *GenGrammar) []EntrySpec {
 				return []EntrySpec{{Name: "C04", Params: "n int", Body: "hl.C04(G, vd.New, n, NSW)"}}
 			},
 			Jobs:              func(gg *GenGrammar) []*Job { return lenJobs("C04", N) },
 			BrokenIsViolation: true, ValidateEveryGrammar: validateEvery(c), Cfg: parserCfg(c),
-		})
+		}
 	}
-	checks["C05"] = func(c *Ctx) error {
+	gramSpecs["C05"] = func(c *Ctx) ([]*family.Grammar, *GramSpec) {
 		N := maxN(c)
 		stdBounds(c, N)
 		c.Assumptions = append(c.Assumptions, "A-QUOTE: strconv.Quote is modelled as an uninterpreted function of its argument (equal results iff equal arguments)")
-		return runGrammarProperty(c, parserFamily(c, ""), &GramSpec{
+		return parserFamily(c, ""), &GramSpec{
 			Variants: []string{"d"},
 			Entries: func(gg *GenGrammar) []EntrySpec {
 				return []EntrySpec{{Name: "C05", Params: "n int", Body: "hl.C05(G, vd.New, strconv.Quote, n, NSW)"}}
 			},
 			Jobs:              func(gg *GenGrammar) []*Job { return lenJobs("C05", N) },
 			BrokenIsViolation: true, ValidateEveryGrammar: validateEvery(c), Cfg: parserCfg(c),
-		})
+		}
 	}
-	checks["C06"] = func(c *Ctx) error {
+	gramSpecs["C06"] = func(c *Ctx) ([]*family.Grammar, *GramSpec) {
 		N := maxN(c)
 		stdBounds(c, N)
-		return runGrammarProperty(c, parserFamily(c, ""), &GramSpec{
+		return parserFamily(c, ""), &GramSpec{
 			Variants: []string{"d"},
 			Entries: func(gg *GenGrammar) []EntrySpec {
 				return []EntrySpec{{Name: "C06", Params: "n int", Body: "hl.C06(G, vd.New, n, NSW)"}}
 			},
 			Jobs:              func(gg *GenGrammar) []*Job { return lenJobs("C06", N) },
 			BrokenIsViolation: true, ValidateEveryGrammar: validateEvery(c), Cfg: parserCfg(c),
-		})
+		}
 	}
-	checks["C07"] = func(c *Ctx) error {
+	gramSpecs["C07"] = func(c *Ctx) ([]*family.Grammar, *GramSpec) {
 		N := maxN(c)
 		stdBounds(c, N)
 		c.Bounds["option_sets"] = "-noast, -noast -inline, -noast -switch, -noast -inline -switch, each against the default parser and the reference"
-		return runGrammarProperty(c, parserFamily(c, ""), &GramSpec{
+		return parserFamily(c, ""), &GramSpec{
 			Variants: []string{"d", "n", "ni", "ns", "nis"},
 			Entries: func(gg *GenGrammar) []EntrySpec {
 				if !gg.OK("d") {
@@ -220,27 +220,36 @@ func init() {
 			},
 			Jobs:              func(gg *GenGrammar) []*Job { return lenJobs("C07", N) },
 			BrokenIsViolation: true, ValidateEveryGrammar: validateEvery(c), Cfg: parserCfg(c),
-		})
+		}
 	}
-	checks["C11"] = func(c *Ctx) error {
+	gramSpecs["C11"] = func(c *Ctx) ([]*family.Grammar, *GramSpec) {
 		N := maxN(c)
 		stdBounds(c, N)
 		c.Assumptions = append(c.Assumptions, "A-QUOTE: strconv.Quote is modelled as an uninterpreted function of its argument",
 			"position convention: the (line, column) of offset p is that of the rune at p: line = 1 + newlines before p, column = 1 + runes since the last newline")
-		return runGrammarProperty(c, parserFamily(c, ""), &GramSpec{
+		return parserFamily(c, ""), &GramSpec{
 			Variants: []string{"d"},
 			Entries: func(gg *GenGrammar) []EntrySpec {
-				return []EntrySpec{{Name: "C11", Params: "n int", Body: "hl.C11(G, vd.New, strconv.Quote, n, NSW)"}}
+				return []EntrySpec{{Name: "C11", Params: "n int", Body: "hl.C11(G, vd.New, strconv.Quote, n, NSW)"},
+					{Name: "C11Reuse", Params: "n1, n2 int", Body: "hl.C11Reuse(G, vd.New, strconv.Quote, n1, n2, NSW)"}}
 			},
-			Jobs:              func(gg *GenGrammar) []*Job { return lenJobs("C11", N) },
+			Jobs: func(gg *GenGrammar) []*Job {
+				jobs := lenJobs("C11", N)
+				if strings.HasPrefix(gg.G.Tag, "shape/") || gg.Idx%6 == 0 {
+					for _, ns := range [][2]int{{3, 2}, {2, 3}, {3, 3}, {3, 0}, {3, 1}} {
+						jobs = append(jobs, &Job{Entry: "C11Reuse", Args: []int{ns[0], ns[1]}})
+					}
+				}
+				return jobs
+			},
 			BrokenIsViolation: true, ValidateEveryGrammar: validateEvery(c), Cfg: parserCfg(c),
-		})
+		}
 	}
-	checks["C13"] = func(c *Ctx) error {
+	gramSpecs["C13"] = func(c *Ctx) ([]*family.Grammar, *GramSpec) {
 		N := maxN(c)
 		stdBounds(c, N)
 		all := []string{"d", "i", "s", "is", "n", "ni", "ns", "nis"}
-		return runGrammarProperty(c, parserFamily(c, ""), &GramSpec{
+		return parserFamily(c, ""), &GramSpec{
 			Variants: all,
 			Entries: func(gg *GenGrammar) []EntrySpec {
 				names, ctors, ok := varList(gg, all, optName)
@@ -255,7 +264,7 @@ func init() {
 			},
 			Jobs:              func(gg *GenGrammar) []*Job { return lenJobs("C13", N) },
 			BrokenIsViolation: false, ValidateEveryGrammar: validateEvery(c), Cfg: parserCfg(c),
-		})
+		}
 	}
 	checks["FAMILY"] = func(c *Ctx) error {
 		for i, g := range parserFamily(c, "") {
